@@ -90,7 +90,7 @@ Inductive arg := ANone | AOp (o : operand) | AName (dunder : bool).
 
 Inductive value :=
 | VStr0 | VStrX | VDebug (p : party) | VB (b : bool) | VIter0 | VI0 | VIX | VHashC
-| VUnd (p : party) | VNoneV | VNotImpl.
+| VUnd (p : party) | VNoneV | VNotImpl | VAIter0.
 Inductive mres := MRet (v : value) | MRaise (p : party) | MAttrErr | MNoMethod | MUnmod.
 
 Definition const_value (c : constv) : value :=
@@ -148,7 +148,8 @@ Fixpoint call (fuel : nat) (T : tables) (c : cname) (p : party) (me : method) (r
           | None => (MUnmod, [LWarn p])
           | Some (me', rest') => let '(r, l) := call f T c p me' rest' a in (r, LWarn p :: l)
           end
-      | KHashNone | KInit | KMessage | KAiterEmpty | KOther => (MUnmod, [])
+      | KAiterEmpty => (MRet VAIter0, [])
+      | KHashNone | KInit | KMessage | KOther => (MUnmod, [])
       end
   end.
 
@@ -167,7 +168,7 @@ Inductive other := OB (k : bkind) | OSame | OPlain.  (* builtin value / another 
 Inductive rcont := RCStr | RCList | RCDict.        (* container on the right of `u in container` *)
 
 Inductive op :=
-| OpStr | OpBool | OpIter | OpLen | OpHash | OpPos | OpNeg | OpInt | OpFloat | OpCall | OpCallT
+| OpStr | OpBool | OpIter | OpAiter | OpLen | OpHash | OpPos | OpNeg | OpInt | OpFloat | OpCall | OpCallT
 | OpGetAttr | OpGetDunder | OpGetItem | OpIsDefined | OpIsUndefined | OpDefault
 | OpCopy | OpDeepcopy | OpPickle
 | OpContains (o : other)
@@ -185,7 +186,8 @@ Definition res_of (v : value) : result :=
   match v with
   | VStr0 => RStrEmpty | VStrX => RStrOther | VDebug Self => RDebugStr | VDebug Other => ROtherValue
   | VB b => RBool b | VIter0 => RIterEmpty | VI0 => RInt0 | VIX => RIntOther | VHashC => RHashClass
-  | VUnd Self => RItself | VUnd Other => ROtherUndef | VNoneV => RNone | VNotImpl => ROtherValue end.
+  | VUnd Self => RItself | VUnd Other => ROtherUndef | VNoneV => RNone | VNotImpl => ROtherValue
+  | VAIter0 => RIterEmpty end.
 
 (* a protocol call whose result Python type-checks (str() wants a str, len() an int ...) *)
 Definition typed (ok : value -> bool) (r : run) (nomethod : orun) : orun :=
@@ -210,6 +212,14 @@ Definition op_str T c : orun :=
 Definition op_iter T c : orun :=
   typed is_iterv (vcall T c Self m_iter ANone)
     (if has T c m_getitem then (Unmodelled, []) else (TypeErr, [])).
+
+(* async iteration (async_utils.auto_aiter): `__aiter__` if the object has one, else plain iteration *)
+Definition is_aiterv v := match v with VAIter0 => true | _ => false end.
+Definition op_aiter T c : orun :=
+  match lookup T c m_aiter with
+  | Some _ => typed is_aiterv (vcall T c Self m_aiter ANone) (Unmodelled, [])
+  | None => op_iter T c
+  end.
 
 Definition op_len T c : orun := typed is_intv (vcall T c Self m_len ANone) (TypeErr, []).
 
@@ -396,6 +406,7 @@ Definition dispatch (T : tables) (F : facts) (c : cname) (o : op) : orun :=
   | OpStr => op_str T c
   | OpBool => op_bool T c
   | OpIter => op_iter T c
+  | OpAiter => op_aiter T c
   | OpLen => op_len T c
   | OpHash => op_hash T c Self
   | OpPos => op_simple T c m_pos ANone
